@@ -371,7 +371,7 @@ pub fn replay(path: &str) -> i32 {
         println!("replay passes (property held on this schedule)");
         0
     } else {
-        let viol = Violation { scenario: name.to_string(), status: a.status, clause: a.clause.clone(), msg: a.msg.clone(), devs, out: a.out.clone() };
+        let viol = Violation { scenario: name.to_string(), status: a.status, clause: a.clause.clone(), msg: a.msg.clone(), devs, out: a.out.clone(), known: false };
         if let Some(k) = load_known().iter().find(|k| matches_known(k, prop, &viol)) {
             println!("KNOWN-FINDING: property={} {} [{}]", prop, k.text, k.id);
             return 0;
